@@ -1,7 +1,7 @@
 (* C18 — evaluation of generated cases: model vs observed implementation output, and the checker. *)
 From Dastard Require Import Common.ZX Common.CaseLib C18.Model C18.Spec.
 
-Record case := { c_cap : Z; c_hist : list (op * obs) }.
+Record case := { c_cap : Z; c_base : Z; c_hist : list (op * obs) }.
 
 Definition ret_eqb (a b : ret) : bool :=
   match a, b with
@@ -31,13 +31,13 @@ Definition model_cap_limit : Z := 16384.
 (* (code, index of first diverging op) *)
 Definition verdict (c : case) : Z * Z :=
   if c_cap c >? model_cap_limit
-  then (if C18_check (c_hist c) then 0 else 1, -1)
+  then (if C18_check_at (c_base c) (c_hist c) then 0 else 1, -1)
   else
   let ops := map fst (c_hist c) in
   let impl := map snd (c_hist c) in
-  let model := snd (run (create (c_cap c)) ops) in
+  let model := snd (run (create_at (c_cap c) (c_base c)) ops) in
   let d := first_diff 0 impl model in
-  (verdict_code (d =? -1) (C18_check (c_hist c)), d).
+  (verdict_code (d =? -1) (C18_check_at (c_base c) (c_hist c)), d).
 
 (* compact rendering of long byte strings: a, a+1, ... modulo 251 *)
 Definition pat (a n : Z) : list Z := map (fun i => (a + i) mod 251) (zrange 0 n).
@@ -53,4 +53,6 @@ Definition DS k r w := (DiscardStride k, {| o_ret := RNil; o_readable := r; o_wr
 Definition DSe k r w := (DiscardStride k, {| o_ret := RErr; o_readable := r; o_writeable := w |}).
 Definition DSp k := (DiscardStride k, {| o_ret := RPanic; o_readable := 0; o_writeable := 0 |}).
 Definition DA r w := (DiscardAll, {| o_ret := RNil; o_readable := r; o_writeable := w |}).
-Definition mk (cap : Z) (h : list (op * obs)) : case := {| c_cap := cap; c_hist := h |}.
+Definition mk (cap : Z) (h : list (op * obs)) : case := {| c_cap := cap; c_base := 0; c_hist := h |}.
+(* a ring whose read and write pointers both stood at [base] before the history began *)
+Definition mkb (cap base : Z) (h : list (op * obs)) : case := {| c_cap := cap; c_base := base; c_hist := h |}.
